@@ -143,6 +143,42 @@ Proof.
   - intros H. exact (active_constraints_complete cfgw nobj ncon ow cw j r row w Hj Hr H).
 Qed.
 
+(* (c) the aggregate flag EvaluatorContext.active that lazy evaluators look at: for every request the model
+   can issue (any kind, any cache contents of the right shape, filters or not) the model of
+   EvaluatorContext.__post_init__ computes the specification "some entry of the realization is active", and
+   it flags realization r inactive iff EVERY objective and constraint entry of r is flagged inactive *)
+Theorem C06_aggregate_flag : forall has_filters cfgw nobj ncon c k,
+  (0 < nobj)%nat -> wf_cache (length cfgw) nobj ncon c ->
+  let a := plan_active has_filters cfgw nobj ncon c k in
+  agg_flags (aggregate_active (length cfgw) (fst a) (snd a)) (length cfgw) = agg_spec (length cfgw) nobj ncon (fst a) (snd a) /\
+  forall r, (r < length cfgw)%nat ->
+    (agg_at (aggregate_active (length cfgw) (fst a) (snd a)) r = false <->
+     (forall j, (j < nobj)%nat -> flag_at (fst a) j r = false) /\ (forall j, (j < ncon)%nat -> flag_at (snd a) j r = false)).
+Proof.
+  intros has_filters cfgw nobj ncon c k Hn Hc a. split.
+  - exact (aggregate_plan has_filters cfgw nobj ncon c k Hn Hc).
+  - intros r Hr. exact (aggregate_inactive_iff has_filters cfgw nobj ncon c k r Hn Hc Hr).
+Qed.
+
+(* (c) from flags to weights, end to end: for every request the model can issue, two evaluator outputs for
+   function j that differ only at realizations the request flagged inactive give the same mean and variance
+   estimates under the weights that are in force for that request (the cached result's for a split gradient
+   request, the configured ones otherwise; with realization filters a function request flags nothing) *)
+Theorem C06_flagged_entries_inert : forall has_filters cfgw nobj ncon c k j ws failed vs vs',
+  wf_cache (length cfgw) nobj ncon c ->
+  ((j < nobj)%nat -> weights_known has_filters cfgw nobj (cache_ow c) (is_split c k) j ws ->
+   same_where (nth j (flags (fst (plan_active has_filters cfgw nobj ncon c k)) nobj (length cfgw)) []) vs vs' ->
+   oQeq (est_mean ws failed vs) (est_mean ws failed vs') /\ oQeq (est_variance ws failed vs) (est_variance ws failed vs')) /\
+  ((j < ncon)%nat -> weights_known has_filters cfgw ncon (cache_cw c) (is_split c k) j ws ->
+   same_where (nth j (flags (snd (plan_active has_filters cfgw nobj ncon c k)) ncon (length cfgw)) []) vs vs' ->
+   oQeq (est_mean ws failed vs) (est_mean ws failed vs') /\ oQeq (est_variance ws failed vs) (est_variance ws failed vs')).
+Proof.
+  intros has_filters cfgw nobj ncon c k j ws failed vs vs' Hc.
+  destruct (plan_flagged_agree has_filters cfgw nobj ncon c k j ws vs vs' Hc) as [Ho Hk].
+  split; intros Hj Hw Hs; [specialize (Ho Hj Hw Hs) | specialize (Hk Hj Hw Hs)];
+    (split; [now apply est_mean_inert | now apply est_variance_inert]).
+Qed.
+
 (* (c) non-interference: two evaluator outputs that agree on every entry with non-zero weight give the
    same mean and variance estimates (any failure pattern), and the same mean / stddev-chain-rule gradient
    sums for ANY least-squares solver, because every use of an entry is multiplied by its weight *)
@@ -159,10 +195,12 @@ Proof.
   - intros solve V l l' H. split; [now apply mean_gradient_inert | now apply fw_gradient_inert].
 Qed.
 
-(* (d) store model: in every history of calls (any shapes, batch sizes, transforms, with the evaluator
-   overwriting its buffers between calls) no write or attribute assignment by ropt targets anything owned
-   by the evaluator, every delivered array lives in a fresh buffer owned by ropt, and no delivered buffer
-   is written after its delivery: the monitor has nothing to report *)
+(* (d) store model: in every history of calls (any shapes, batch sizes, transforms, results delivered as they
+   are or together with their user-domain copies, with the evaluator overwriting its buffers and every
+   variable matrix it was ever handed, and the caller overwriting its variable vector between calls) no write
+   or attribute assignment by ropt targets anything owned by the evaluator or the caller, every delivered
+   array lives in a fresh buffer owned by ropt, and no delivered buffer is written after its delivery by
+   anybody: the monitor has nothing to report *)
 Theorem C06_no_foreign_write : forall ps : list params,
   let evs := run init (history_ops head 0 ps) in
   foreign_events evs = [] /\ late_writes evs = [] /\ monitor_codes head ps = [] /\
@@ -185,23 +223,41 @@ Example C06_example :
     = Some [[true; false; true]] /\
   agree [Q_ 1 2; 0; Q_ 1 2] [Some 1; Some 7; Some 3] [Some 1; Some (Q_ 1267650600228229401496703205376 1); Some 3] /\
   oQeq (est_mean [Q_ 1 2; 0; Q_ 1 2] [false; false; false] [Some 1; Some 7; Some 3]) (Some 2) /\
-  monitor_codes head [{| p_shape := SFun 2; p_con := true; p_tr_obj := true; p_tr_con := false |};
-                      {| p_shape := SBoth; p_con := true; p_tr_obj := false; p_tr_con := false |}] = [] /\
-  monitor_codes {| bug_setattr := true; bug_nan := false; bug_info := false |}
-                [{| p_shape := SGrad; p_con := true; p_tr_obj := true; p_tr_con := true |}]
+  monitor_codes head [{| p_shape := SFun 2; p_con := true; p_tr_obj := true; p_tr_con := false; p_tr_var := true; p_user := true |};
+                      {| p_shape := SBoth; p_con := true; p_tr_obj := false; p_tr_con := false; p_tr_var := false; p_user := false |}] = [] /\
+  monitor_codes {| bug_setattr := true; bug_nan := false; bug_info := false; bug_var := false |}
+                [{| p_shape := SGrad; p_con := true; p_tr_obj := true; p_tr_con := true; p_tr_var := false; p_user := true |}]
     = [CSetAttr FObj; CSetAttr FCon] /\
-  monitor_codes {| bug_setattr := false; bug_nan := true; bug_info := false |}
-                [{| p_shape := SGrad; p_con := true; p_tr_obj := false; p_tr_con := false |}]
+  monitor_codes {| bug_setattr := false; bug_nan := true; bug_info := false; bug_var := false |}
+                [{| p_shape := SGrad; p_con := true; p_tr_obj := false; p_tr_con := false; p_tr_var := false; p_user := false |}]
     = [CBufferChanged FCon] /\
-  monitor_codes {| bug_setattr := false; bug_nan := false; bug_info := true |}
-                [{| p_shape := SGrad; p_con := false; p_tr_obj := false; p_tr_con := false |}]
-    = [CAlias FInfo; CDeliveredChanged].
+  monitor_codes {| bug_setattr := false; bug_nan := false; bug_info := true; bug_var := false |}
+                [{| p_shape := SGrad; p_con := false; p_tr_obj := false; p_tr_con := false; p_tr_var := false; p_user := false |}]
+    = [CAlias FInfo; CDeliveredChanged] /\
+  monitor_codes {| bug_setattr := false; bug_nan := false; bug_info := false; bug_var := true |}
+                [{| p_shape := SFun 1; p_con := false; p_tr_obj := false; p_tr_con := false; p_tr_var := false; p_user := false |}]
+    = [CAlias FVar; CDeliveredChanged] /\
+  (* the aggregate flag: realization 0 is skipped only because objective AND constraint are inactive there *)
+  wf_cache 3 1 1 (Some ([1], Some [[0; Q_ 1 2; Q_ 1 2]], None)) /\
+  (let a := plan_active true [Q_ 1 2; 0; Q_ 1 2] 1 1 (Some ([1], Some [[0; Q_ 1 2; Q_ 1 2]], None)) KGrad in
+   a = (Some [[false; true; true]], Some [[true; false; true]]) /\
+   aggregate_active 3 (fst a) (snd a) = Some [true; true; true]) /\
+  (let a := plan_active false [0; 1] 1 1 None KBoth in
+   a = (Some [[false; true]], Some [[false; true]]) /\ aggregate_active 2 (fst a) (snd a) = Some [false; true]) /\
+  (* a pair (None, Some _) -- which _get_active_realizations never returns -- would be aggregated wrongly *)
+  agg_flags (aggregate_active 2 None (Some [[false; true]])) 2 = [false; true] /\
+  agg_spec 2 1 1 None (Some [[false; true]]) = [true; true] /\
+  same_where [false; true] [Some 7; Some 3] [Some (Q_ 1267650600228229401496703205376 1); Some 3].
 Proof.
   split; [vm_compute; reflexivity|]. split; [vm_compute; reflexivity|]. split; [vm_compute; reflexivity|].
   split; [vm_compute; reflexivity|].
   split; [repeat constructor; (right; reflexivity) || (left; reflexivity)|].
   split; [vm_compute; reflexivity|].
-  repeat split; vm_compute; reflexivity.
+  do 5 (split; [vm_compute; reflexivity|]).
+  split; [cbn; repeat split; repeat constructor|].
+  split; [vm_compute; split; reflexivity|]. split; [vm_compute; split; reflexivity|].
+  split; [vm_compute; reflexivity|]. split; [vm_compute; reflexivity|].
+  repeat constructor; (left; reflexivity) || (right; reflexivity).
 Qed.
 
 Print Assumptions C06_labels_complete.
@@ -212,5 +268,7 @@ Print Assumptions C06_provenance_both.
 Print Assumptions C06_provenance_nocon.
 Print Assumptions C06_inactive_only_if_zero.
 Print Assumptions C06_split_gradient_iff_zero.
+Print Assumptions C06_aggregate_flag.
+Print Assumptions C06_flagged_entries_inert.
 Print Assumptions C06_inert.
 Print Assumptions C06_no_foreign_write.
